@@ -144,7 +144,7 @@ func WellFormed(kind Kind, b []byte) error {
 		// tolerates tags, and the CBOR library looks through tags when it decodes
 		// into typed values. The property only forbids tags inside envelopes, so the
 		// rules are applied to the tree with every tag wrapper removed.
-		n = stripTags(n)
+		n = StripTags(n)
 		if err := unprotectedMap(n); err != nil {
 			return err
 		}
@@ -157,7 +157,7 @@ func WellFormed(kind Kind, b []byte) error {
 }
 
 // stripTags returns a copy of the tree without tag wrappers.
-func stripTags(n *Node) *Node {
+func StripTags(n *Node) *Node {
 	for n.Major == refcbor.Tag && len(n.Kids) == 1 {
 		n = n.Kids[0]
 	}
@@ -165,7 +165,7 @@ func stripTags(n *Node) *Node {
 	if n.Kids != nil {
 		c.Kids = make([]*Node, len(n.Kids))
 		for i, k := range n.Kids {
-			c.Kids[i] = stripTags(k)
+			c.Kids[i] = StripTags(k)
 		}
 	}
 	return &c
@@ -756,6 +756,9 @@ func KeyRules(b []byte) error {
 	if err != nil {
 		return err
 	}
+	// the key decoder runs in a tag-tolerant mode and the property says nothing
+	// about tags: the rules are applied with tag wrappers looked through
+	n = StripTags(n)
 	if n.Major != refcbor.Map {
 		return errors.New("key: not a map")
 	}
